@@ -277,6 +277,11 @@ def run(ctx):
         c_ = strip(br_[0])
         if c_["k"] == "Binary" and c_["op"] in ("&&", "And"):
             l_, r_ = strip(c_["l"]), strip(c_["r"])
+            # a conjunct bound to a named temporary (`let name_is_empty = right_border <= content_start;`) is read as the comparison
+            if l_["k"] == "Path" and init_of(l_) is not None and strip(init_of(l_))["k"] == "Binary":
+                l_ = strip(init_of(l_))
+            if r_["k"] == "Path" and init_of(r_) is not None and strip(init_of(r_))["k"] == "Binary":
+                r_ = strip(init_of(r_))
             if l_["k"] == "MethodCall" and l_["method"] == "is_empty":
                 l_, r_ = r_, l_
             if not (l_["k"] == "Binary" and r_["k"] == "MethodCall" and r_["method"] == "is_empty"):
